@@ -27,7 +27,7 @@ func tupleIn(vals []driver.Value, width int, tuple []interface{}) bool {
 	return false
 }
 
-var c11Shapes = []string{"has-many-int", "has-many-int-pointers", "composite-int", "composite-int-single", "composite-string-3-1", "composite-string-1-3", "composite-string-nil", "belongs-to", "has-one", "duplicate-parent", "join-nested-preload", "composite-string-backslash", "belongs-to-string-nil", "join-self-nested", "join-self-nested-single", "preload-args-reused"}
+var c11Shapes = []string{"has-many-int", "has-many-int-pointers", "composite-int", "composite-int-single", "composite-string-3-1", "composite-string-1-3", "composite-string-nil", "belongs-to", "has-one", "duplicate-parent", "join-nested-preload", "composite-string-backslash", "belongs-to-string-nil", "join-self-nested", "join-self-nested-single", "preload-args-reused", "many2many", "many2many-pointers", "soft-deleted-children", "soft-deleted-children-unscoped"}
 
 func N_C11_Preload(tier int) int { return len(c11Shapes) }
 
@@ -369,6 +369,116 @@ func H_C11_Preload(shape int) {
 			verifrt.Assert(len(x.Manager.Pets) == 1, "C11.children-count")
 			if len(x.Manager.Pets) == 1 {
 				verifrt.Assert(x.Manager.Pets[0].StaffID == x.Manager.ID, "C11.foreign-key-mismatch")
+			}
+		}
+	case "many2many", "many2many-pointers":
+		// two speakers (symbolic ids), three join rows (symbolic speaker and language), two languages
+		id1, id2 := int64(verifrt.Intn("p1", 1, 3)), int64(verifrt.Intn("p2", 1, 3))
+		verifrt.Assume(id1 != id2)
+		jo := []int64{int64(verifrt.Intn("j1o", 0, 3)), int64(verifrt.Intn("j2o", 0, 3)), int64(verifrt.Intn("j3o", 0, 3))}
+		jl := []int64{int64(verifrt.Intn("j1l", 1, 2)), int64(verifrt.Intn("j2l", 1, 2)), int64(verifrt.Intn("j3l", 1, 2))}
+		// the join table's key is the pair
+		for a := 0; a < 3; a++ {
+			for b := a + 1; b < 3; b++ {
+				verifrt.Assume(verifrt.Or(jo[a] != jo[b], jl[a] != jl[b]))
+			}
+		}
+		s.OnQuery = func(text string, args []driver.Value) RowSet {
+			switch {
+			case hasPrefix(text, "SELECT * FROM `speakers`"):
+				return RowSet{Cols: []string{"id", "name"}, Rows: [][]driver.Value{{id1, "s1"}, {id2, "s2"}}}
+			case hasPrefix(text, "SELECT * FROM `speaker_langs`"):
+				rs := RowSet{Cols: []string{"speakerid", "langid"}}
+				for i := range jo {
+					if tupleIn(args, 1, []interface{}{jo[i]}) {
+						rs.Rows = append(rs.Rows, []driver.Value{jo[i], jl[i]})
+					}
+				}
+				return rs
+			}
+			rs := RowSet{Cols: []string{"id", "name"}}
+			for _, l := range []int64{1, 2} {
+				if tupleIn(args, 1, []interface{}{l}) {
+					rs.Rows = append(rs.Rows, []driver.Value{l, "l"})
+				}
+			}
+			return rs
+		}
+		check := func(sp []*Speaker) {
+			for _, x := range sp {
+				for _, l := range []int64{1, 2} {
+					want, got := 0, 0
+					for i := range jo {
+						if jo[i] == int64(x.ID) && jl[i] == l {
+							want++
+						}
+					}
+					for _, g := range x.Langs {
+						if int64(g.ID) == l {
+							got++
+						}
+					}
+					verifrt.Assert(got == want, "C11.wrong-child")
+				}
+			}
+		}
+		if kind == "many2many-pointers" {
+			var sp []*Speaker
+			verifrt.Assert(db.Preload("Langs").Find(&sp).Error == nil, "C11.error")
+			verifrt.Assert(len(sp) == 2, "C11.parents")
+			check(sp)
+		} else {
+			var sp []Speaker
+			verifrt.Assert(db.Preload("Langs").Find(&sp).Error == nil, "C11.error")
+			verifrt.Assert(len(sp) == 2, "C11.parents")
+			check([]*Speaker{&sp[0], &sp[1]})
+		}
+	case "soft-deleted-children", "soft-deleted-children-unscoped":
+		// two binders (symbolic ids), three sheets with symbolic binder and symbolic deleted flag;
+		// the stub answers the child query as a database would (foreign key and deleted_at condition)
+		unscoped := kind == "soft-deleted-children-unscoped"
+		id1, id2 := int64(verifrt.Intn("p1", 1, 3)), int64(verifrt.Intn("p2", 1, 3))
+		verifrt.Assume(id1 != id2)
+		fks := []int64{int64(verifrt.Intn("c1", 0, 3)), int64(verifrt.Intn("c2", 0, 3)), int64(verifrt.Intn("c3", 0, 3))}
+		del := []bool{verifrt.Bool("d1"), verifrt.Bool("d2"), verifrt.Bool("d3")}
+		gone := c07Now()
+		s.OnQuery = func(text string, args []driver.Value) RowSet {
+			if hasPrefix(text, "SELECT * FROM `binders`") {
+				return RowSet{Cols: []string{"id", "name"}, Rows: [][]driver.Value{{id1, "f1"}, {id2, "f2"}}}
+			}
+			live := indexStr(text, "`sheets`.`deletedat` IS NULL") >= 0
+			rs := RowSet{Cols: []string{"id", "binderid", "deletedat"}}
+			for i, fk := range fks {
+				if tupleIn(args, 1, []interface{}{fk}) && !(live && del[i]) {
+					var d driver.Value
+					if del[i] {
+						d = gone
+					}
+					rs.Rows = append(rs.Rows, []driver.Value{int64(10 + i), fk, d})
+				}
+			}
+			return rs
+		}
+		var fs []Binder
+		tx := db
+		if unscoped {
+			tx = db.Unscoped()
+		}
+		verifrt.Assert(tx.Preload("Sheets").Find(&fs).Error == nil, "C11.error")
+		verifrt.Assert(len(fs) == 2, "C11.parents")
+		for _, f := range fs {
+			want := 0
+			for i, fk := range fks {
+				if fk == int64(f.ID) && (unscoped || !del[i]) {
+					want++
+				}
+			}
+			verifrt.Assert(len(f.Sheets) == want, "C11.children-count")
+			for _, n := range f.Sheets {
+				verifrt.Assert(int64(n.BinderID) == int64(f.ID), "C11.foreign-key-mismatch")
+				if !unscoped {
+					verifrt.Assert(!n.DeletedAt.Valid, "C11.soft-deleted-child-attached")
+				}
 			}
 		}
 	}
